@@ -590,6 +590,80 @@ def valid(item):
 
 
 # ---------------------------------------------------------------------------
+# counts at type-width boundaries: delay(k), take(n)
+#
+# The model side receives the TRUE counts: Signal/SigRun.v clamps every delay length to 1 + the number of calls of next
+# the case can make (norm_case; SigRunNormProofs.run_ops_norm: running the normalised case is running the case) and
+# counts take(n) in Z.  Every run here is a handful of calls, so a counter that was narrowed (u8 / u16 / u32), read as
+# signed (i16 / i32 / i64) or routed through a float (24 / 53 bit mantissa) shows in the first frames: the silence ends
+# at once (or after k mod 2^w frames), a borrowed source is advanced, is_exhausted answers early, take stops early,
+# size_hint / len report the wrong remainder.
+
+COUNT_WIDTHS = (8, 15, 16, 24, 31, 32, 33, 53, 63)
+
+
+def boundary_counts():
+    vs = []
+    for w in COUNT_WIDTHS:
+        vs += [(1 << w) - 1, 1 << w, (1 << w) + 1, (1 << w) + 2, (1 << w) + 5]
+    vs += [3 * (1 << 32) + 1, 5 * (1 << 32), (1 << 40) + 3, (1 << 63) + (1 << 32), (1 << 64) - (1 << 32),
+           (1 << 64) - (1 << 32) + 1, (1 << 64) - 2, (1 << 64) - 1]
+    return vs
+
+
+COUNT_FMTS = ["i16x2", "u8x3", "i32x1", "i16x2", "f64x1", "u8x3", "i24x1", "f32x2", "i32x1", "u48x1", "i16x2", "u16x1", "i64x1"]
+
+
+def count_ctx(g, inner, depth):
+    """`inner` under up to `depth` random adaptor levels: pointwise unary ones, small delays, binary ones with a fresh
+    leaf on either side -- the long delay / the borrowed base sits at any position of the tree"""
+    r, t = g.r, inner
+    for _ in range(depth):
+        k = r.below(10)
+        if k < 5:
+            t = g.unary(g.unary_kind(), t)
+        elif k < 6:
+            t = g.unary("delay", t)
+        else:
+            other = g.leaf()
+            kind = r.choice(BINARY)
+            t = g.binary(kind, t, other) if r.chance(1, 2) else g.binary(kind, other, t)
+    return t
+
+
+def count_item(fm, bases, ops, tag):
+    return build(dict(fmt=fm, bases=bases, ops=ops, wide=False, family=tag))
+
+
+def max_count(t, bases=()):
+    return max([nd[1] for nd in nodes(t, bases) if nd[0] == "delay"] + [0])
+
+
+def count_label(k):
+    if k >= (1 << 64) - 4:
+        return "usize::MAX" + (f"{k - ((1 << 64) - 1):+d}" if k != (1 << 64) - 1 else "")
+    w = min(range(65), key=lambda w: abs(k - (1 << w)))  # nearest power of two
+    d = k - (1 << w)
+    return (f"2^{w}" + (f"{d:+d}" if d else "")) if abs(d) <= 8 else f"~2^{w}"
+
+
+def count_hist(items):
+    """which boundary values were used, as delay lengths and as take counts (evidence)"""
+    h = {}
+    for it in items:
+        for o in it["ops"]:
+            ks = [("delay", nd[1]) for nd in nodes(op_tree(o), it["bases"]) if nd[0] == "delay" and nd[1] >= 255]
+            if o[0] == "T" and o[1] >= 255:
+                ks.append(("take", o[1]))
+            if o[0] == "IT" and o[1] == 1 and o[2] >= 255:
+                ks.append(("take", o[2]))
+            for what, k in ks:
+                key = f"{what}:{count_label(k)}"
+                h[key] = h.get(key, 0) + 1
+    return h
+
+
+# ---------------------------------------------------------------------------
 # common check flow
 
 
@@ -739,8 +813,8 @@ def finish(rep, prop, info, n, nontriv, dist, samples, rule, expl, tnote, extra)
 
 def model_eval(tag, it):
     if it.get("gen"):
-        return F.coq_eval(tag, HEADER_GEN, f"run_gcase ({it['coq']})")
-    return F.coq_eval(tag, HEADER, f"run_case ({it['coq']})")
+        return F.coq_eval(tag, HEADER_GEN, f"run_gcase_norm ({it['coq']})")
+    return F.coq_eval(tag, HEADER, f"run_case_norm ({it['coq']})")
 
 
 def replay(prop, path):
